@@ -85,9 +85,9 @@ theorem el_setCol_hi_lo (xs : List Int) (n1 n2 c i j : Nat) (col : List Int) (hi
 /-! ### a fold of column-local updates of two stacked n2 × n1 matrices -/
 
 /-- one step: columns i of both matrices are replaced by `G i` of them -/
-def colStep (n1 n2 : Nat) (G : Nat → List Int → List Int → List Int × List Int) (xs : List Int) (i : Nat) : List Int :=
-  setCol (setCol xs i n1 (G i (getCol xs i n1 n2) (getCol xs (n1 * n2 + i) n1 n2)).1) (n1 * n2 + i) n1
-    (G i (getCol xs i n1 n2) (getCol xs (n1 * n2 + i) n1 n2)).2
+def colStep (n1 n2 off2 : Nat) (G : Nat → List Int → List Int → List Int × List Int) (xs : List Int) (i : Nat) : List Int :=
+  setCol (setCol xs i n1 (G i (getCol xs i n1 n2) (getCol xs (off2 + i) n1 n2)).1) (off2 + i) n1
+    (G i (getCol xs i n1 n2) (getCol xs (off2 + i) n1 n2)).2
 
 theorem idx_lt (n1 n2 i j : Nat) (hi : i < n1) (hj : j < n2) : i + j * n1 < n1 * n2 := by
   calc i + j * n1 < n1 + j * n1 := by omega
@@ -98,11 +98,11 @@ theorem idx_lt (n1 n2 i j : Nat) (hi : i < n1) (hj : j < n2) : i + j * n1 < n1 *
 theorem fold_cols (n1 n2 : Nat) (G : Nat → List Int → List Int → List Int × List Int)
     (hG : ∀ i ca cb, (G i ca cb).1.length = n2 ∧ (G i ca cb).2.length = n2) (xs : List Int)
     (hlen : xs.length = 2 * (n1 * n2)) (c : Nat) (hc : c ≤ n1) :
-    ((List.range c).foldl (colStep n1 n2 G) xs).length = xs.length ∧
+    ((List.range c).foldl (colStep n1 n2 (n1 * n2) G) xs).length = xs.length ∧
     ∀ i < n1, ∀ j < n2,
-      el ((List.range c).foldl (colStep n1 n2 G) xs) (i + j * n1) =
+      el ((List.range c).foldl (colStep n1 n2 (n1 * n2) G) xs) (i + j * n1) =
         (if i < c then el (G i (getCol xs i n1 n2) (getCol xs (n1 * n2 + i) n1 n2)).1 j else el xs (i + j * n1)) ∧
-      el ((List.range c).foldl (colStep n1 n2 G) xs) (n1 * n2 + i + j * n1) =
+      el ((List.range c).foldl (colStep n1 n2 (n1 * n2) G) xs) (n1 * n2 + i + j * n1) =
         (if i < c then el (G i (getCol xs i n1 n2) (getCol xs (n1 * n2 + i) n1 n2)).2 j
          else el xs (n1 * n2 + i + j * n1)) := by
   induction c with
@@ -110,7 +110,7 @@ theorem fold_cols (n1 n2 : Nat) (G : Nat → List Int → List Int → List Int 
   | succ c ih =>
     obtain ⟨hl, hv⟩ := ih (by omega)
     rw [List.range_succ, List.foldl_append, List.foldl_cons, List.foldl_nil]
-    set ys := (List.range c).foldl (colStep n1 n2 G) xs with hys
+    set ys := (List.range c).foldl (colStep n1 n2 (n1 * n2) G) xs with hys
     have ga : getCol ys c n1 n2 = getCol xs c n1 n2 := by
       unfold getCol; apply List.map_congr_left; intro j hj
       have := (hv c (by omega) j (List.mem_range.mp hj)).1
